@@ -437,7 +437,7 @@ pub fn close_position_reply(
         msgs.append(
             &mut withdraw_many(
                 deps.as_ref(),
-                env,
+                env.clone(),
                 &mut state,
                 &transfers,
                 config.eligible_collateral,
@@ -459,7 +459,7 @@ pub fn close_position_reply(
         swap.trader,
     )?;
 
-    remove_position(deps.storage, &position);
+    remove_position(deps.storage, &position, env.block.height)?;
 
     store_state(deps.storage, &state)?;
 
@@ -649,7 +649,7 @@ pub fn liquidate_reply(
 
     store_state(deps.storage, &state)?;
 
-    remove_position(deps.storage, &position);
+    remove_position(deps.storage, &position, env.block.height)?;
     remove_tmp_swap(deps.storage);
     remove_tmp_liquidator(deps.storage);
 
@@ -748,6 +748,9 @@ pub fn partial_liquidation_reply(
             .unwrap(),
         );
     }
+
+    // the liquidated position has been updated in this block
+    position.block_number = env.block.height;
 
     store_position(deps.storage, &position)?;
     store_state(deps.storage, &state)?;
